@@ -1,7 +1,9 @@
 //! scalar64: curve25519::scalar::Scalar through its public API, plus the cfg(cryptoxide_verif) wrappers
 //! `scalar::verif::{muladd,nibbles,bits,slide}` and `scalar::verif64::{add,mul}` of crate-private functions.
 use crate::util::*;
-use cryptoxide::curve25519::scalar::{verif, verif64, Scalar};
+use cryptoxide::curve25519::scalar::{verif, Scalar};
+#[cfg(not(feature = "force-32bits"))]
+use cryptoxide::curve25519::scalar::verif64;
 
 fn sc(s: &str) -> Scalar {
     Scalar::from_bytes(&arr::<32>(&unhex(s)))
@@ -46,7 +48,9 @@ pub fn run(op: &str, a: &[&str]) -> Option<String> {
             None => "none".into(),
         },
         "scalar.reduce_wide" => hex(&Scalar::reduce_from_wide_bytes(&arr::<64>(&unhex(a[0]))).to_bytes()),
+        #[cfg(not(feature = "force-32bits"))]
         "scalar.add" => hex(&verif64::add(&sc(a[0]), &sc(a[1])).to_bytes()),
+        #[cfg(not(feature = "force-32bits"))]
         "scalar.mul" => hex(&verif64::mul(&sc(a[0]), &sc(a[1])).to_bytes()),
         "scalar.muladd" => hex(&verif::muladd(&sc(a[0]), &sc(a[1]), &sc(a[2])).to_bytes()),
         "scalar.reduce_then_canonical" => {
